@@ -183,3 +183,18 @@ Proof.
   destruct (rpc_tables_clean _ _ _ H) as (A & _ & _ & D). split; [exact A | exact D].
 Qed.
 End PerStream.
+
+(* non-vacuity: two RPCs whose steps interleave on the shared queues - the second is refused while the
+   first is served; each projection is a run of Rpc.v, and the frames of the two never mix *)
+Definition two_rpc_run : list mlbl :=
+  [MK 0 CNew; MK 1 CNew; MK 1 CSend; MK 0 CSend; MVLoop LNormal; MVLoop LReject; MV 1 SRejGo; MVLoop LNormal;
+   MV 0 HSend; MKLoop false; MVLoop LNormal; MKLoop false; MV 0 HReturn; MV 0 SFinH; MV 0 SFinH; MV 0 SFinH; MV 0 SCloseGo].
+Example two_rpc_run_ok :
+  exists m, mrun true (m_init 2) two_rpc_run = Some m /\
+            proj 0 (mh_c m) = [FNew; FReq] /\ proj 1 (mh_c m) = [FNew; FReq] /\
+            proj 0 (mh_s m) = [FHdr; FResp; FClose] /\ proj 1 (mh_s m) = [FClose] /\
+            p_n (get m 0) = 1 /\ p_n (get m 1) = 0 /\ m_last m = 2.
+Proof. eexists. vm_compute. repeat split. Qed.
+(* the creation lock: the second id cannot be started before the first *)
+Example ids_in_order : mstep true (m_init 2) (MK 1 CNew) = None.
+Proof. reflexivity. Qed.
